@@ -119,7 +119,7 @@ type Ref struct {
 	root *Node
 	cfg  Cfg
 	// statistics of the last Eval calls (for the non-triviality rule of the evidence)
-	Resolved, NotPresent, ResolveErr int
+	Resolved, NotPresent, ResolveErr, NotFound int
 }
 
 func NewRef(root *Node, cfg Cfg) *Ref { return &Ref{root: root, cfg: cfg} }
@@ -322,6 +322,7 @@ func (r *Ref) resolve(path []string, env []binding) (*Node, int) {
 	}
 	n, st := r.walk(p)
 	if st == stNotFound {
+		r.NotFound++
 		if r.cfg.Unknown != nil {
 			return r.cfg.Unknown, stOK
 		}
